@@ -45,9 +45,26 @@ def make_protocols(kind, validator):
     return c(validator=validator), c()
 
 
+def idhref_ir():
+    """fixed universe: attributes named id and href (names SOAP 1.1 encoding gives a meaning to) in one message"""
+    ns = 'urn:vf:c01:idhref'
+    U = lambda: {'prim': 'Unicode', 'facets': {}}
+    I = lambda: {'prim': 'Integer', 'facets': {}}
+    T = lambda name, fields: {'name': name, 'ns': ns, 'base': None, 'has_xmldata': False, 'fields': fields}
+    types = [T('WithId', [['id', {'attr': U()}], ['v', I()], ['s', U()]]), T('WithHref', [['href', {'attr': U()}], ['w', I()]]),
+             T('Both', [['id', {'attr': U()}], ['href', {'attr': U()}], ['n', I()]])]
+    M_ = lambda name, args, rets: {'name': name, 'args': args, 'returns': rets, 'style': 'wrapped'}
+    return {'uid': 9400, 'tns': ns, 'types': types, 'services': [{'name': 'S', 'methods': [
+        M_('pair', [['a', {'ref': 'WithId'}], ['b', {'ref': 'WithHref'}]], [{'ref': 'WithHref'}]),
+        M_('many', [['xs', {'array': {'ref': 'WithId'}}], ['ys', {'array': {'ref': 'WithHref'}}]], [{'array': {'ref': 'WithId'}}]),
+        M_('both', [['x', {'ref': 'Both'}], ['y', {'ref': 'Both'}]], [{'ref': 'Both'}])]}]}
+
+
 def universe(seed, uid, opts=None):
+    if uid == 9400:
+        return idhref_ir()
     rng = core.rng_for(seed, PROP, 'uni%d' % uid)
-    return gen.rand_universe(rng, opts or gen.Opts(), uid=uid)
+    return gen.rand_universe(rng, opts or gen.Opts(id_href_attrs=True), uid=uid)
 
 
 def universe_h(seed, uid):
@@ -356,6 +373,36 @@ def client_fault_mech(code, string):
     return str(code).split(':')[-1]
 
 
+def link_id_href(ir, tspecs, values, rng):
+    """make the value of an attribute named href equal to (or '#' +) the value of some attribute named id in the same message"""
+    ids, hrefs = [], []
+
+    def walk(t, v):
+        if v is None:
+            return
+        if 'ref' in t and isinstance(v, dict):
+            for fn, ft in gen.all_fields(ir, v.get('__class__', t['ref'])):
+                if 'attr' in ft and ft['attr'].get('prim') == 'Unicode' and isinstance(v.get(fn), str):
+                    if fn == 'id' and v[fn]:
+                        ids.append(v[fn])
+                    elif fn == 'href':
+                        hrefs.append((v, fn))
+                elif fn in v:
+                    walk(ft, v[fn])
+        for k in ('array', 'seq'):
+            if k in t and isinstance(v, list):
+                for x in v:
+                    walk(t[k], x)
+    for t, v in zip(tspecs, values):
+        walk(t, v)
+    n = 0
+    for holder, fn in hrefs:
+        if ids and rng.random() < .7:
+            holder[fn] = rng.choice(('', '#')) + rng.choice(ids)
+            n += 1
+    return n
+
+
 def run_universe(R, seed, uid, tier, only=None, headers=False):
     ir = universe_h(seed, uid) if headers else universe(seed, uid)
     rng = core.rng_for(seed, PROP, 'vals%d%s' % (uid, 'h' if headers else ''))
@@ -404,11 +451,14 @@ def run_universe(R, seed, uid, tier, only=None, headers=False):
                     args = [gen.gen_value(rng, ir, t, top=(md['style'] == 'bare')) for _, t in md['args']]
                     rets = [gen.gen_value(rng, ir, t, top=(md['style'] != 'wrapped')) for t in md['returns']]
                     driver = 'wsgi' if k == ncalls - 1 else 'server'
+                    R.count('id_href_links', link_id_href(ir, [t for _, t in md['args']], args, rng))
                     repro = {'seed': seed, 'uid': uid, 'kind': kind, 'validator': validator, 'call': k, 'headers': headers}
                     run_call(R, C, md, args, rets, driver, rng, repro)
 
 
 def run(spec, R):
+    if spec['first'] == 0:
+        run_universe(R, spec['seed'], 9400, spec['tier'])
     for uid in range(spec['first'], spec['first'] + spec['count']):
         run_universe(R, spec['seed'], uid, spec['tier'])
         if uid % 2 == 0 or spec['tier'] != 'quick':
